@@ -127,7 +127,7 @@ Proof.
     destruct (keqb k mk); [lia|]. rewrite F. lia.
   - intros i Hi. rewrite removelast_length, !upd_length in Hi. rewrite Heqn, keys2_nth by lia.
     rewrite FD. destruct (Nat.eqb_spec old i).
-    + subst i. destruct (keqb mk k) eqn:EQ; [apply MK in EQ; lia|]. rewrite krefl. eauto.
+    + subst i. destruct (keqb mk k) eqn:EQ; [specialize (MK eq_refl); lia|]. rewrite krefl. eauto.
     + destruct (A i) as [vi Fi]; [lia|].
       destruct (keqb (nth i (keys s) kzero) k) eqn:EQ1.
       { apply keqb_spec in EQ1. rewrite EQ1 in Fi. rewrite F in Fi. inversion Fi. lia. }
@@ -146,3 +146,195 @@ Proof.
       split; try lia. rewrite Heqn, keys2_nth by lia.
       destruct (Nat.eqb_spec old i'); try lia. auto.
 Qed.
+
+Lemma rstep_inv : forall o s e, rinv s -> rinv (fst (rstep keqb kzero o s e)).
+Proof.
+  intros o s e I. destruct e; simpl; auto.
+  - apply rset_inv; auto.
+  - pose proof (rdelete_inv o s k I). destruct (rdelete keqb kzero o k s). auto.
+  - destruct (keys s); auto. destruct (nth_error (k :: l) i); auto.
+  - destruct (rsize s =? 0); auto. destruct (nth_error (keys s) i); auto.
+  - destruct (count <? 1)%Z; auto. destruct (Z.of_nat (rsize s) <=? count)%Z; auto.
+Qed.
+
+(* the dense-keys / back-index invariant holds in every reachable state, for every option setting *)
+Theorem rm_reachable_inv_gen : forall o h s, rinv s -> rinv (fst (rrun keqb kzero o s h)).
+Proof.
+  induction h as [|e r IH]; simpl; intros; auto.
+  pose proof (rstep_inv o s e H). destruct (rstep keqb kzero o s e) as [s1 x]. simpl in *.
+  specialize (IH s1 H0). destruct (rrun keqb kzero o s1 r). auto.
+Qed.
+
+Theorem rm_reachable_inv : forall o h, rinv (fst (rrun keqb kzero o rnew h)).
+Proof. intros. apply rm_reachable_inv_gen. apply rinv_new. Qed.
+
+(* RandomKey / RandomEntry: for every index the PRNG can return (i < size) the pick is a member *)
+Theorem random_key_member : forall o s i, rinv s -> i < rsize s ->
+  exists k v j, snd (rstep keqb kzero o s (RRandomKey i)) = ROKey (Some k) /\ findE k (m (raw s)) = Some (v, j).
+Proof.
+  intros o s i (U & L & A & B) Hi. unfold rsize, size in Hi. rewrite <- L in Hi.
+  destruct (A i Hi) as [v Fv]. simpl.
+  destruct (keys s) as [|k0 l] eqn:EK; [simpl in Hi; lia|]. rewrite <- EK in *.
+  rewrite (nth_error_nth' (keys s) kzero Hi). simpl. eauto.
+Qed.
+
+Theorem random_entry_member : forall o s i, rinv s -> i < rsize s ->
+  exists k v j, snd (rstep keqb kzero o s (RRandomEntry i)) = ROGet (Some v) /\ findE k (m (raw s)) = Some (v, j).
+Proof.
+  intros o s i (U & L & A & B) Hi. simpl.
+  destruct (Nat.eqb_spec (rsize s) 0); [lia|].
+  unfold rsize, size in Hi. rewrite <- L in Hi. destruct (A i Hi) as [v Fv].
+  rewrite (nth_error_nth' (keys s) kzero Hi). rewrite Fv. simpl. eauto.
+Qed.
+
+Theorem random_pick_empty : forall o s i, rinv s -> rsize s = 0 ->
+  snd (rstep keqb kzero o s (RRandomKey i)) = ROKey None /\ snd (rstep keqb kzero o s (RRandomEntry i)) = ROGet None.
+Proof.
+  intros o s i (U & L & A & B) Hz. unfold rsize, size in *. simpl.
+  destruct (keys s); [|simpl in L; lia]. unfold rsize, size. rewrite Hz. auto.
+Qed.
+
+(* ---------- RandomUniqueEntries ---------- *)
+Definition picks_ok (s : rst K V) (n : nat) (kvs : list (K * V)) : Prop :=
+  NoDup (map fst kvs) /\ length kvs = Nat.min n (rsize s) /\
+  forall k v, In (k, v) kvs -> exists j, findE k (m (raw s)) = Some (v, j).
+
+Lemma NoDup_snoc : forall A (l : list A) x, NoDup l -> ~ In x l -> NoDup (l ++ [x]).
+Proof.
+  intros. apply Permutation_NoDup with (x :: l). apply Permutation_cons_append. constructor; auto.
+Qed.
+
+Lemma rue_loop_spec : forall s, rinv s -> forall perm acc c,
+  (forall i, In i perm -> i < length (keys s)) -> NoDup perm ->
+  (forall i k v, In i perm -> In (k, v) acc -> nth i (keys s) kzero <> k) ->
+  NoDup (map fst acc) ->
+  (forall k v, In (k, v) acc -> exists j, findE k (m (raw s)) = Some (v, j)) ->
+  length acc <= c ->
+  let r := rue_loop keqb kzero s perm c acc in
+  NoDup (map fst r) /\ (forall k v, In (k, v) r -> exists j, findE k (m (raw s)) = Some (v, j)) /\
+  length r = Nat.min c (length acc + length perm).
+Proof.
+  intros s I. pose proof I as (U & L & A & B). pose proof (rinv_nodup s I) as NDK.
+  induction perm as [|i r IH]; intros acc c Hlt NDP Fresh NDA Mem Len; simpl.
+  - repeat split; auto. lia.
+  - destruct (Nat.leb_spec c (length acc)).
+    + repeat split; auto. lia.
+    + destruct (A i) as [v Fv]; [apply Hlt; simpl; auto|]. rewrite Fv.
+      inversion NDP; subst.
+      destruct (IH (acc ++ [(nth i (keys s) kzero, v)]) c) as (R1 & R2 & R3).
+      * intros. apply Hlt. simpl. auto.
+      * auto.
+      * intros i' k' v' Hi' Hin. apply in_app_or in Hin. destruct Hin as [Hin|Hin].
+        { eapply Fresh; simpl; eauto. }
+        { simpl in Hin. destruct Hin as [Hin|[]]. inversion Hin; subst. intro EQ.
+          assert (i' = i).
+          { apply (proj1 (NoDup_nth (keys s) kzero) NDK); auto; apply Hlt; simpl; auto. }
+          subst. contradiction. }
+      * rewrite map_app. simpl. apply NoDup_snoc; auto. intro Hin. apply in_map_iff in Hin.
+        destruct Hin as [[k' v'] [E1 E2]]. simpl in E1. subst k'.
+        apply (Fresh i (nth i (keys s) kzero) v'); simpl; auto.
+      * intros k' v' Hin. apply in_app_or in Hin. destruct Hin as [Hin|Hin]; auto.
+        simpl in Hin. destruct Hin as [Hin|[]]. inversion Hin; subst. eauto.
+      * rewrite app_length. simpl. lia.
+      * repeat split; auto. rewrite R3, app_length. simpl. lia.
+Qed.
+
+Lemma in_uniq_find : forall A (l : list (K * A)) k a, uniq l -> In (k, a) l -> SMap.find keqb k l = Some a.
+Proof.
+  induction l as [|[k' a'] t]; simpl; intros; try contradiction.
+  inversion H; subst. destruct H0 as [H0|H0].
+  - inversion H0; subst. rewrite krefl. auto.
+  - destruct (keqb k k') eqn:EQ; auto.
+    apply keqb_spec in EQ. subst. exfalso. apply H3. apply in_map_iff. exists (k', a). auto.
+Qed.
+
+(* C12 RandomMap: RandomUniqueEntries(count) returns min(count, size) entries of distinct keys, all members,
+   for every permutation rand.Perm can return (and all entries when count >= size) *)
+Theorem random_unique_entries : forall o s count perm, rinv s ->
+  Permutation perm (seq 0 (length (keys s))) ->
+  exists kvs, picks_ok s (Z.to_nat count) kvs /\
+    (snd (rstep keqb kzero o s (RRandomUniqueEntries count perm)) = ROValsSeq (map snd kvs) \/
+     snd (rstep keqb kzero o s (RRandomUniqueEntries count perm)) = ROValsSet (map snd kvs)).
+Proof.
+  intros o s count perm I P. pose proof I as (U & L & A & B). simpl.
+  destruct (Z.ltb_spec count 1).
+  - exists []. split; auto. unfold picks_ok. simpl. replace (Z.to_nat count) with 0 by lia.
+    repeat split; try constructor. intros. contradiction.
+  - destruct (Z.leb_spec (Z.of_nat (rsize s)) count).
+    + exists (rentries s). split.
+      * unfold picks_ok, rentries. rewrite map_map, map_length. simpl. repeat split; auto.
+        { change (length (m (raw s))) with (rsize s). lia. }
+        { intros k v Hin. apply in_map_iff in Hin. destruct Hin as [[k' [v' j]] [E1 E2]]. simpl in E1.
+          inversion E1; subst. exists j. apply in_uniq_find; auto. }
+      * right. simpl. unfold rvalues, rentries. rewrite map_map. auto.
+    + destruct (rue_loop_spec s I perm [] (Z.to_nat count)) as (R1 & R2 & R3); simpl; auto; try lia.
+      * intros i Hi. eapply Permutation_in in Hi; eauto. apply in_seq in Hi. lia.
+      * eapply Permutation_NoDup; [apply Permutation_sym; eauto|apply seq_NoDup].
+      * constructor.
+      * exists (rue_loop keqb kzero s perm (Z.to_nat count) []). split; auto.
+        unfold picks_ok. repeat split; auto. rewrite R3. simpl.
+        rewrite (Permutation_length P), seq_length. unfold rsize, size. rewrite L. auto.
+Qed.
+
+(* ---------- the deterministic operations are those of a plain map (projection of the entries) ---------- *)
+Lemma find_rentries : forall s k,
+  findV k (rentries s) = match findE k (m (raw s)) with Some (v, _) => Some v | None => None end.
+Proof.
+  intros s k. unfold rentries. induction (m (raw s)) as [|[k' [v' j]] t]; simpl; auto.
+  destruct (keqb k k'); auto.
+Qed.
+
+Lemma rentries_put : forall k v j (l : list (K * E)),
+  map (fun kv : K * E => (fst kv, fst (snd kv))) (putE k (v, j) l) =
+  SMap.put keqb k v (map (fun kv : K * E => (fst kv, fst (snd kv))) l).
+Proof.
+  induction l as [|[k' [v' j']] t]; simpl; auto. destruct (keqb k k'); simpl; auto. f_equal. auto.
+Qed.
+
+Lemma rentries_del : forall k (l : list (K * E)),
+  map (fun kv : K * E => (fst kv, fst (snd kv))) (delE k l) =
+  SMap.del keqb k (map (fun kv : K * E => (fst kv, fst (snd kv))) l).
+Proof.
+  induction l as [|[k' [v' j']] t]; simpl; auto. destruct (keqb k k'); simpl; auto. f_equal. auto.
+Qed.
+
+(* Set and Delete act on the projected contents exactly like a plain map; Get/Has/Size read it *)
+Theorem rm_set_plain : forall (s : rst K V) k v, rentries (rset keqb k v s) = SMap.put keqb k v (rentries s).
+Proof.
+  intros. unfold rset, rentries.
+  destruct (findE k (m (raw s))) as [[v0 i0]|]; simpl; apply rentries_put.
+Qed.
+
+Theorem rm_delete_plain : forall o s k, rinv s ->
+  rentries (fst (rdelete keqb kzero o k s)) = SMap.del keqb k (rentries s) /\
+  snd (rdelete keqb kzero o k s) = match findV k (rentries s) with Some v => Some (v, true) | None => None end.
+Proof.
+  intros o s k I. pose proof I as (U & L & A & B). rewrite find_rentries. unfold rdelete.
+  destruct (findE k (m (raw s))) as [[v old]|] eqn:F.
+  - destruct (B _ _ _ F) as [Hold Kold].
+    destruct (Nat.eqb_spec old (length (keys s))) as [|NE]; [lia|].
+    destruct (A (length (keys s) - 1)) as [mv Fm]; [lia|]. rewrite Fm. cbv iota beta zeta.
+    remember (nth (length (keys s) - 1) (keys s) kzero) as mk.
+    assert (U1 : uniq (m (poke keqb mk (mv, old) (raw s)))) by (apply put_uniq; auto).
+    destruct (delete_plain K E keqb keqb_spec o k _ U1) as [DM DB].
+    destruct (delete keqb o k (poke keqb mk (mv, old) (raw s))) as [raw2 d]. simpl in DM, DB. simpl.
+    split.
+    + unfold rentries. simpl. rewrite DM, rentries_del, rentries_put. f_equal.
+      (* re-writing the moved entry with its own value does not change the projected map *)
+      clear - Fm keqb_spec. induction (m (raw s)) as [|[k' [v' j']] t]; simpl in *; try discriminate.
+      destruct (keqb mk k') eqn:EQ; simpl.
+      * apply keqb_spec in EQ. subst. inversion Fm; subst. auto.
+      * f_equal. auto.
+    + rewrite DB. rewrite (find_put K E keqb keqb_spec). destruct (keqb k mk); auto. rewrite F. auto.
+  - simpl. split; auto. unfold rentries. rewrite <- rentries_del. f_equal.
+    symmetry. apply (del_notfound K E keqb); auto.
+Qed.
+
+End RMapProofs.
+
+(* the invariant is not vacuous: a delete of a middle key moves the last key into the hole *)
+Example rm_swap_delete :
+  let h := [RSet 0 10%Z; RSet 1 11%Z; RSet 2 12%Z; RDelete 0] in
+  keys (fst (rrun Nat.eqb 0 (mkOpts 1 2 2) rnew h)) = [2; 1] /\
+  m (raw (fst (rrun Nat.eqb 0 (mkOpts 1 2 2) rnew h))) = [(1, (11%Z, 1)); (2, (12%Z, 0))].
+Proof. vm_compute. auto. Qed.
